@@ -53,7 +53,6 @@ func (ex *Exec) evalIdentC(p *Path, id *ast.Ident) Value {
 	return Value{}
 }
 
-var qvarCounter int
 
 // evalClause evaluates a clause expression to a Bool term.
 func (ex *Exec) evalClause(p *Path, ce *CExpr, assume bool) string {
@@ -108,8 +107,8 @@ func (ex *Exec) evalCE(p *Path, ce *CExpr) Value {
 			} else {
 				saved[b.Name] = nil
 			}
-			qvarCounter++
-			vn := fmt.Sprintf("|%s?%d|", b.Name, qvarCounter)
+			ex.qvarCounter++
+			vn := fmt.Sprintf("|%s?%d|", b.Name, ex.qvarCounter)
 			p.names[b.Name] = Value{vn, t}
 			binders = append(binders, "("+vn+" "+ex.c.SortOf(t)+")")
 			if _, isSlice := t.Underlying().(*types.Slice); isSlice {
@@ -336,22 +335,21 @@ func (ex *Exec) callSpec(p *Path, name string, call *ast.CallExpr) Value {
 	return ex.convert(p, v, rt, call.Pos())
 }
 
-var recDefining = map[string]bool{}
 
 // defineRec emits the defining axiom of a recursive spec function (over the immutable heap only).
 func (ex *Exec) defineRec(sf *SpecFunc, f string, ptypes []types.Type, rt types.Type) {
 	key := "rec:" + sf.Name
-	if ex.c.axiomSeen[key] || recDefining[key] {
+	if ex.c.axiomSeen[key] || ex.recDefining[key] {
 		return
 	}
-	recDefining[key] = true
-	defer delete(recDefining, key)
+	ex.recDefining[key] = true
+	defer delete(ex.recDefining, key)
 	q := NewPath()
 	var binders, terms []string
 	var invs []string
 	for i, b := range sf.Params {
-		qvarCounter++
-		vn := fmt.Sprintf("|%s?%d|", b.Name, qvarCounter)
+		ex.qvarCounter++
+		vn := fmt.Sprintf("|%s?%d|", b.Name, ex.qvarCounter)
 		q.names[b.Name] = Value{vn, ptypes[i]}
 		binders = append(binders, "("+vn+" "+ex.c.SortOf(ptypes[i])+")")
 		terms = append(terms, vn)
@@ -436,8 +434,8 @@ func (ex *Exec) contractBuiltin(p *Path, name string, call *ast.CallExpr) ([]Val
 		return one(Value{app(ex.c.Fun("obs:strings.ToUpper/String", []string{"String"}, "String"), arg(0).T), strT})
 	case "member":
 		s, v := arg(0), arg(1)
-		qvarCounter++
-		k := fmt.Sprintf("|k?%d|", qvarCounter)
+		ex.qvarCounter++
+		k := fmt.Sprintf("|k?%d|", ex.qvarCounter)
 		return one(Value{"(exists ((" + k + " Int)) (and (>= " + k + " 0) (< " + k + " " + ex.c.sliceLen(s) + ") (= " + ex.c.sliceAt(s, k) + " " + v.T + ")))", boolT})
 	case "inDom":
 		m, k := arg(0), arg(1)
